@@ -322,6 +322,61 @@ func main() {
 			return []byte("ok")
 		}})
 	}
+	// message level through one shared implementation object: COSE_Mac0 (each MAC family) and COSE_Sign1 produced and
+	// verified by all goroutines at once
+	for _, alg := range []int{iana.AlgorithmHMAC_256_64, iana.AlgorithmAES_MAC_128_64, iana.AlgorithmAES_MAC_256_128} {
+		var k key.Key
+		if alg == iana.AlgorithmHMAC_256_64 {
+			k = must(hmac.GenerateKey(alg))
+		} else {
+			k = must(aesmac.GenerateKey(alg))
+		}
+		mc := must(k.MACer())
+		tasks = append(tasks, task{fmt.Sprintf("Mac0/shared-macer/%d", alg), func(i int) []byte {
+			data := must((&cose.Mac0Message[[]byte]{Payload: in(i)}).ComputeAndEncode(mc, in(i+1)))
+			m, err := cose.VerifyMac0Message[[]byte](mc, data, in(i+1))
+			if err != nil || !bytes.Equal(m.Payload, in(i)) {
+				return []byte("verify-failed")
+			}
+			return data
+		}})
+	}
+	{
+		ks := must(ed25519.GenerateKey())
+		sg, vf := must(ks.Signer()), must(ks.Verifier())
+		tasks = append(tasks, task{"Sign1/shared-signer", func(i int) []byte {
+			data := must((&cose.Sign1Message[[]byte]{Payload: in(i)}).SignAndEncode(sg, nil))
+			if _, err := cose.VerifySign1Message[[]byte](vf, data, nil); err != nil {
+				return []byte("verify-failed")
+			}
+			return data
+		}})
+	}
+	// arguments are read only: one ciphertext / one tag decrypted / verified by all goroutines from the same slices
+	for _, alg := range []int{iana.AlgorithmA128GCM, iana.AlgorithmAES_CCM_16_64_128, iana.AlgorithmChaCha20Poly1305} {
+		var k key.Key
+		switch alg {
+		case iana.AlgorithmA128GCM:
+			k = must(aesgcm.GenerateKey(alg))
+		case iana.AlgorithmChaCha20Poly1305:
+			k = must(chacha20poly1305.GenerateKey())
+		default:
+			k = must(aesccm.GenerateKey(alg))
+		}
+		e := must(k.Encryptor())
+		nonce := make([]byte, e.NonceSize())
+		cts := make([][]byte, len(inputs))
+		for i := range inputs {
+			cts[i] = must(e.Encrypt(nonce, inputs[i], nil))
+		}
+		tasks = append(tasks, task{fmt.Sprintf("decrypt-shared-input/%d", alg), func(i int) []byte {
+			pt, err := e.Decrypt(nonce, cts[i%len(cts)], nil)
+			if err != nil || !bytes.Equal(pt, in(i)) {
+				return []byte("decrypt-failed")
+			}
+			return []byte("ok")
+		}})
+	}
 	// key generation and random bytes of every length class from all goroutines
 	tasks = append(tasks, task{"GenerateKey+GetRandomBytes", func(i int) []byte {
 		a := key.GetRandomBytes(uint16(1 + i%40))
